@@ -19,6 +19,7 @@ type invrCfg struct {
 	Skip        int  `json:"Skip"`
 	NCb         int  `json:"NCb"`
 	SkipDefault bool `json:"SkipDefault"` // leave SkipInterval zero (library default 15 s)
+	UnitMs      int  `json:"UnitMs"`      // one model time unit in milliseconds (default 1000)
 }
 
 type invrStepJ struct {
@@ -70,13 +71,18 @@ func TestInvalidatorReplay(t *testing.T) {
 
 	type ctxK struct{}
 
+	unit := time.Second
+	if cfg.UnitMs > 0 {
+		unit = time.Duration(cfg.UnitMs) * time.Millisecond
+	}
+
 	for bi, b := range behs {
 		var viol *Violation
 
 		synctest.Test(t, func(t *testing.T) {
 			inv := &cache.Invalidator{}
 			if !cfg.SkipDefault {
-				inv.SkipInterval = time.Duration(cfg.Skip) * time.Second
+				inv.SkipInterval = time.Duration(cfg.Skip) * unit
 			}
 
 			var log []int
@@ -95,7 +101,7 @@ func TestInvalidatorReplay(t *testing.T) {
 
 			for si, st := range b {
 				if st.Op == "Adv" {
-					time.Sleep(time.Duration(st.D) * time.Second)
+					time.Sleep(time.Duration(st.D) * unit)
 
 					continue
 				}
@@ -199,7 +205,13 @@ func TestInvalidatorConcurrent(t *testing.T) {
 			inv.Callbacks = append(inv.Callbacks, func(ctx context.Context) {
 				c, _ := ctx.Value(ck{}).(string)
 				rec(map[string]interface{}{"ev": "cb", "c": c, "i": i, "ts": us(), "r": ""})
-				time.Sleep(time.Duration(rng.Intn(300)) * time.Microsecond)
+				// mostly quick, sometimes slower than SkipInterval: other callers must then wait on the mutex
+				d := time.Duration(rng.Intn(300)) * time.Microsecond
+				if rng.Intn(6) == 0 {
+					d = time.Duration(skipMs)*time.Millisecond + time.Duration(rng.Intn(skipMs*500))*time.Microsecond
+				}
+
+				time.Sleep(d)
 				rec(map[string]interface{}{"ev": "cbx", "c": c, "i": i, "ts": 0, "r": ""})
 			})
 		}
